@@ -372,22 +372,36 @@ func (ps *Points) Merge(in Points, maxTime time.Duration) Points {
 	return ret
 }
 
-// Collapse is used to merge any common points and keep the latest
+// Collapse is used to merge any common points and keep the latest.
+// Points are identified by type and key, where an empty key is the
+// same as key "0".
 func (ps *Points) Collapse() {
 	if len(*ps) <= 1 {
 		return
 	}
 
-	pts := make(map[string]Point)
+	type pointID struct {
+		typ string
+		key string
+	}
+
+	id := func(p Point) pointID {
+		if p.Key == "" {
+			return pointID{p.Type, "0"}
+		}
+		return pointID{p.Type, p.Key}
+	}
+
+	pts := make(map[pointID]Point)
 
 	for _, p := range *ps {
-		pA, OK := pts[p.Type+p.Key]
+		pA, OK := pts[id(p)]
 		if OK {
 			if pA.Time.Before(p.Time) || pA.Time.Equal(p.Time) {
-				pts[p.Type+p.Key] = p
+				pts[id(p)] = p
 			}
 		} else {
-			pts[p.Type+p.Key] = p
+			pts[id(p)] = p
 		}
 	}
 
